@@ -258,7 +258,11 @@ func cmdCheck(args []string) int {
 		fmt.Println("ENGINE-ERROR tmp:", err)
 		return 2
 	}
-	defer os.RemoveAll(workdir)
+	if os.Getenv("GOVC_KEEP") == "" {
+		defer os.RemoveAll(workdir)
+	} else {
+		fmt.Println("workdir:", workdir)
+	}
 	solveAll(workdir, frs, pick, *timeout, *par)
 
 	known := loadKnown(filepath.Join(*verif, "known_findings.txt"))
